@@ -122,6 +122,10 @@ def execute(stim):
             if not b['s']:
                 continue
             kw = {}
+            if b.get('fwd'):
+                # this sequential block forwards every new value to another sequential block
+                kw['on_output'] = edzed.Event(stim['blocks'][b['fwd'] - 1]['name'], 'put',
+                                              efilter=edzed.not_from_undef)
             if b.get('bad'):
                 # an output event that fails in a non-fatal way (unknown event type): the error
                 # is reported to the sender of the external event, the simulation continues
@@ -212,9 +216,11 @@ def execute(stim):
         await rt.settle(3)
         if not end_of_burst():
             return
+        sidx = [i for i, b in enumerate(stim['blocks'], 1) if b['s']]
         for burst in stim['bursts']:
             for s, etype, val in burst:
                 blk = blks[s]
+                before = {i: blks[i].output for i in sidx}
                 try:
                     if etype == 'putf':
                         edzed.ExtEvent(blk).send(float(val))    # equal to the integer, another object
@@ -230,6 +236,14 @@ def execute(stim):
                     log.append({'ev': 'send_failed', 'what': repr(err)[:200]})
                     return
                 log.append({'ev': 'put', 's': s, 'v': code(blk.output)})
+                # sequential blocks changed by forwarded events, in the order of the chain
+                nxt = stim['blocks'][s - 1].get('fwd')
+                seen = {s}
+                while nxt and nxt not in seen:
+                    seen.add(nxt)
+                    if blks[nxt].output is not before[nxt] or blks[nxt].output != before[nxt]:
+                        log.append({'ev': 'put', 's': nxt, 'v': code(blks[nxt].output)})
+                    nxt = stim['blocks'][nxt - 1].get('fwd')
             await rt.settle(3)
             if not end_of_burst():
                 return
